@@ -186,7 +186,7 @@ package testscript
 //@   ensures forall K {at(ts.archive.Files,K)} :: lo(ts.archive.Files) <= K && K < hi(ts.archive.Files) ==> sameStr(at(ts.archive.Files,K).Name, old(at(ts.archive.Files,K)).Name) && (!mapkeys(ts.scriptUpdates)[at(ts.archive.Files,K).Name] ==> sameSlice(at(ts.archive.Files,K).Data, old(at(ts.archive.Files,K)).Data))
 
 // ---- C01: verdict logic ----
-//@ property C01: (*TestScript).run, (*TestScript).runLine, (*TestScript).Fatalf, catchFailNow, (*TestScript).cmdExists, scriptMatch, (*TestScript).MkAbs, (*TestScript).Check, (*TestScript).condition, (*TestScript).cmdCd, (*TestScript).cmdChmod, (*TestScript).cmdCp, (*TestScript).cmdMkdir, (*TestScript).cmdMv, (*TestScript).cmdRm, (*TestScript).cmdSymlink, (*TestScript).cmdUnquote, (*TestScript).cmdUNIX2DOS, (*TestScript).cmdStdin, (*TestScript).cmdStop, (*TestScript).cmdCmp, (*TestScript).cmdCmpenv, (*TestScript).cmdWait, (*TestScript).cmdSkip, (*TestScript).cmdStdout, (*TestScript).cmdStderr, (*TestScript).cmdGrep, (*TestScript).cmdTtyout, (*TestScript).Chdir, (*TestScript).ReadFile
+//@ property C01: (*TestScript).run, (*TestScript).runLine, (*TestScript).Fatalf, catchFailNow, (*TestScript).cmdExists, scriptMatch, (*TestScript).MkAbs, (*TestScript).Check, (*TestScript).condition, (*TestScript).cmdCd, (*TestScript).cmdChmod, (*TestScript).cmdCp, (*TestScript).cmdMkdir, (*TestScript).cmdMv, (*TestScript).cmdRm, (*TestScript).cmdSymlink, (*TestScript).cmdUnquote, (*TestScript).cmdUNIX2DOS, (*TestScript).cmdStdin, (*TestScript).cmdStop, (*TestScript).cmdCmp, (*TestScript).cmdCmpenv, (*TestScript).cmdWait, (*TestScript).cmdSkip, (*TestScript).cmdStdout, (*TestScript).cmdStderr, (*TestScript).cmdGrep, (*TestScript).cmdTtyout, (*TestScript).Chdir, (*TestScript).ReadFile, cmd/testscript/(*runT).Run, cmd/testscript/Run$1
 
 //@ extern (github.com/rogpeppe/go-internal/testscript.T).FailNow(t)
 //@   noreturn
@@ -521,8 +521,9 @@ package testscript
 //@   pure
 //@   ensures err == nil ==> !r
 //@ extern strconv.ParseUint(s, base, bitSize) (r, err)
-//@   pure
+//@   modifies gOpFailed
 //@   ensures r >= 0
+//@   ensures gOpFailed == (old(gOpFailed) || err != nil)
 //@ extern (os.FileInfo).Mode(fi) (r)
 //@   pure
 //@   ensures r >= 0
@@ -551,6 +552,7 @@ package testscript
 //@ func (*TestScript).cmdChmod
 //@   requires ts != nil
 //@   modifies gOpFailed, new H_Str
+//@   at call os.Chmod#1: requires 0 <= mode && mode <= 511
 //@   loop 1: invariant -1 <= rangeindex && gOpFailed == old(gOpFailed)
 //@   ensures !neg && gOpFailed == old(gOpFailed)
 //@ func (*TestScript).cmdMkdir
